@@ -2,6 +2,7 @@ use crate::runner::Property;
 
 pub mod c01;
 pub mod c02;
+pub mod c03;
 pub mod c07;
 pub mod c09;
 pub mod c10;
@@ -12,11 +13,13 @@ pub mod c14;
 pub mod c15;
 pub mod c16;
 pub mod c17;
+pub mod c18;
 
 pub fn get(id: &str) -> Option<Property> {
     Some(match id {
         "C01" => c01::property(),
         "C02" => c02::property(),
+        "C03" => c03::property(),
         "C07" => c07::property(),
         "C09" => c09::property(),
         "C10" => c10::property(),
@@ -27,6 +30,7 @@ pub fn get(id: &str) -> Option<Property> {
         "C15" => c15::property(),
         "C16" => c16::property(),
         "C17" => c17::property(),
+        "C18" => c18::property(),
         _ => return None,
     })
 }
